@@ -49,6 +49,8 @@ class IfWriteHandler(AbstractWriteHandler):
     ):
         super().__init__(start_vertex, decompiler, parent)
         self.ended_on_jump = True
+        # Where the elseif branches arrived (the end label of this if), for those that did not end on their own.
+        self._elseif_branch_ends: list[Vertex] = []
 
     def write_content(self) -> Vertex | None:
         op: SsbLabelJump = self.start_vertex["op"]
@@ -115,6 +117,10 @@ class IfWriteHandler(AbstractWriteHandler):
                     # when the if-branch did not arrive there (it ended on a jump or an end op), that label still is
                     # where control goes when the condition does not apply.
                     return else_edge.target_vertex
+                if v_after_else_branch is None and len(self._elseif_branch_ends) > 0:
+                    # Only elseif branches arrive at the end label of this if: the text goes on there.
+                    assert all(v == self._elseif_branch_ends[0] for v in self._elseif_branch_ends)
+                    return self._elseif_branch_ends[0]
                 return v_after_else_branch
             return v_after_if_branch
 
@@ -204,13 +210,15 @@ class IfWriteHandler(AbstractWriteHandler):
 
                 with Blk(self.decompiler):
                     # Handle elseif-branch
-                    BlockWriteHandler(
+                    v_after_elseif_branch = BlockWriteHandler(
                         if_edge.target_vertex,
                         self.decompiler,
                         self,
                         self.start_vertex,
                         check_end_block=self.check_end_block,
                     ).write_content()
+                    if v_after_elseif_branch is not None:
+                        self._elseif_branch_ends.append(v_after_elseif_branch)
                 next_vertex_ends = isinstance(else_edge.target_vertex["op"], SsbLabel) and any(
                     isinstance(mx, IfEnd) and m.if_id == mx.if_id for mx in else_edge.target_vertex["op"].markers
                 )
